@@ -186,6 +186,8 @@ def build_named(shape, rnd, mode_of, props_per_sec=(0, 1, 2), rich=True):
                     pkw = ctor_name(pmode, pused, PLAIN_NAMES)
                     dtype = rnd.choice(list(h.VALUE_POOL))
                     vals = list(rnd.choice(h.VALUE_POOL[dtype] + [[]]))
+                    if rnd.random() < 0.15:
+                        dtype = None                                            # dtype inferred from the values
                     p = odml.Property(dtype=dtype, values=vals, parent=sec, **pkw)
                     post.append((p, pmode))
                     if rich:
@@ -338,7 +340,9 @@ def naming_makers(tier, seed, scope='full', max_secs=None, per_shape=1):
 
     for n, (shape, naming, pps) in enumerate(specs):
         out.append(maker(shape, naming, pps, None))
-        if tier == 'quick' or scope != 'full':
+        if tier == 'quick' and scope != 'full':
+            fmts = [FORMATS[n % 3]] if (naming.startswith('mix:') or (naming.startswith('all:') and n % 2 == 0)) else []
+        elif tier == 'quick' or scope != 'full':
             fmts = [FORMATS[n % 3]] if (naming.startswith(('all:', 'mix:')) or n % 4 == 0) else []
         else:
             fmts = FORMATS if naming.startswith(('all:', 'mix:')) else [FORMATS[n % 3]]
@@ -370,6 +374,8 @@ def doc_makers(tier, seed, max_secs=None, per_shape=None, naming='full'):
         if len(shape) < 2:
             continue
         for lnaming in ('plain', 'all:unnamed'):
+            if lnaming != 'plain' and tier == 'quick' and sum(1 for ch in repr(shape) if ch == '(') - 1 > 3:
+                continue
             fill = 'c11-link-%s-%r-%s' % (seed, shape, lnaming)
 
             def make(shape=shape, fill=fill, naming=lnaming):
